@@ -6,6 +6,10 @@ SPEC = {
         "AM.Snapshot.sil_decode_encode",
         "AM.CrashFS.crash_any_point_loads_old_or_new", "AM.CrashFS.crash_history", "AM.CrashFS.crash_old_or_new",
         "AM.CrashFS.snapshot_preserves",
+        "AM.CrashFS.HInv.crashFS", "AM.CrashFS.HInv_mid", "AM.CrashFS.HInv_attempt_point", "AM.CrashFS.runAttempt_inv",
+        "AM.CrashFS.crashed_attempts_history", "AM.CrashFS.crashed_attempts_history_trunc",
+        "AM.CrashFS.stale_temp_without_trunc_mixed", "AM.CrashFS.stale_temp_with_trunc_clean", "AM.CrashFS.stale_temp_fresh_name_clean",
+        "AM.CrashFS.history_never_refuses_own_file_partial", "AM.CrashFS.oversize_record_refused_any",
         "AM.CrashFS.rename_before_fsync_torn", "AM.CrashFS.no_fsync_torn", "AM.CrashFS.in_place_torn",
         "AM.CrashFS.never_refuses_own_file_partial", "AM.CrashFS.never_refuses_first_snapshot",
         "AM.CrashFS.oversize_record_refused", "AM.CrashFS.restart_keeps_muting_and_dedup",
